@@ -7,6 +7,10 @@ import (
 	"strings"
 )
 
+// newEnvVar creates a variable for an environment result (clock, opaque stub): it is
+// not part of the harness tape (the native replay runs the real environment).
+func (m *Machine) newEnvVar(name string, s Sort) *Term { return m.newVar("env."+name, s) }
+
 func (m *Machine) newVar(name string, s Sort) *Term {
 	k := m.varCount[name]
 	m.varCount[name] = k + 1
@@ -179,7 +183,7 @@ func registerIntrinsics(P *Program) {
 	}
 	in["internal/bytealg.MakeNoZero"] = func(fr *frame, args []Value) Value {
 		m := fr.m
-		n := m.concretizeInt(args[0].(*Term), true, "MakeNoZero")
+		n := m.concretizeAlloc(args[0].(*Term), true, "MakeNoZero")
 		out := make([]Value, n)
 		z := m.tb.Const(8, 0)
 		for i := range out {
